@@ -423,6 +423,8 @@ def main(argv):
     run.assume('fresh node objects per evaluation (sharing/memo effects are the subject of C12)')
     # SMT-A: the linear constant evaluators eval_op_* verified from their AST for all operand values
     from checks import C06smt
+    run.assume('SMT-A shifts (C06smt): for the symbolic counts >= width of eval_op_rshift/arshift one fact of Python int.__rshift__ is assumed as a quantified premise: -2^n <= a < 2^n and r >= n  =>  a >> r == (-1 if a < 0 else 0); counts below the width are enumerated and encoded exactly')
+    run.assume('SMT-A (C06smt): Python integers are mathematical; & | ^ with two symbolic operands are uninterpreted (congruence only) except masks 2^k-1 and operands below 256')
     C06smt.ob_smt(run)
     run.notes.append('eval_op_plus/mult/minus/and/or/xor/not/eq/inf/mullo/mulhi: proved for all operand values (SMT-A, callee contracts of C14); shifts, rotates, division, bit scans: shape-bounded SMT only')
     return run.finish()
